@@ -58,7 +58,7 @@ func run(c Case) (res vh.Result) {
 	n := atomic.AddInt64(&caseSeq, 1)
 	wf := fmt.Sprintf("wf%dx%d", os.Getpid(), n)
 	var sb strings.Builder
-	fmt.Fprintf(&sb, "name: %s\ndefaults:\n  deploy_timeout: 3s\nroles:\n", wf)
+	fmt.Fprintf(&sb, "name: %s\ndefaults:\n  deploy_timeout: 6s\nroles:\n", wf)
 	hosts := []string{"hosta", "hostb", "hostc"}
 	for i := 0; i < c.NTasks; i++ {
 		cls := fmt.Sprintf("u%dx%dt%d", os.Getpid(), n, i)
@@ -451,17 +451,17 @@ func gen(t *rapid.T) Case {
 
 func TestRuns(t *testing.T) {
 	defer simworld.Discard()
-	vh.Check(t, prop, gen, run)
+	vh.Check(t, prop, gen, vh.Confirmed(run))
 }
 
 func TestFixed(t *testing.T) {
 	defer simworld.Discard()
-	vh.Fixed(t, prop, "three-runs", Case{NTasks: 1, Ops: []Op{{Kind: "start"}, {Kind: "stop"}, {Kind: "start"}, {Kind: "stop"}, {Kind: "start"}, {Kind: "stop"}, {Kind: "destroy"}}}, run)
-	vh.Fixed(t, prop, "teardown-while-running", Case{NTasks: 1, Ops: []Op{{Kind: "start"}, {Kind: "stop"}, {Kind: "start"}, {Kind: "destroy"}}}, run)
-	vh.Fixed(t, prop, "task-death-ends-run", Case{NTasks: 2, Ops: []Op{{Kind: "start"}, {Kind: "taskdeath"}}}, run)
-	vh.Fixed(t, prop, "failed-start", Case{NTasks: 1, Ops: []Op{{Kind: "start"}, {Kind: "stop"}, {Kind: "start-taskfail"}}}, run)
+	vh.Fixed(t, prop, "three-runs", Case{NTasks: 1, Ops: []Op{{Kind: "start"}, {Kind: "stop"}, {Kind: "start"}, {Kind: "stop"}, {Kind: "start"}, {Kind: "stop"}, {Kind: "destroy"}}}, vh.Confirmed(run))
+	vh.Fixed(t, prop, "teardown-while-running", Case{NTasks: 1, Ops: []Op{{Kind: "start"}, {Kind: "stop"}, {Kind: "start"}, {Kind: "destroy"}}}, vh.Confirmed(run))
+	vh.Fixed(t, prop, "task-death-ends-run", Case{NTasks: 2, Ops: []Op{{Kind: "start"}, {Kind: "taskdeath"}}}, vh.Confirmed(run))
+	vh.Fixed(t, prop, "failed-start", Case{NTasks: 1, Ops: []Op{{Kind: "start"}, {Kind: "stop"}, {Kind: "start-taskfail"}}}, vh.Confirmed(run))
 	for _, m := range []string{"before", "leave", "enter", "after"} {
-		vh.Fixed(t, prop, "stop-hook-fails-"+m, Case{NTasks: 1, Ops: []Op{{Kind: "start"}, {Kind: "stop"}, {Kind: "start"}, {Kind: "stop-hookfail", Moment: m}}}, run)
-		vh.Fixed(t, prop, "start-hook-fails-"+m, Case{NTasks: 1, Ops: []Op{{Kind: "start"}, {Kind: "stop"}, {Kind: "start-hookfail", Moment: m}}}, run)
+		vh.Fixed(t, prop, "stop-hook-fails-"+m, Case{NTasks: 1, Ops: []Op{{Kind: "start"}, {Kind: "stop"}, {Kind: "start"}, {Kind: "stop-hookfail", Moment: m}}}, vh.Confirmed(run))
+		vh.Fixed(t, prop, "start-hook-fails-"+m, Case{NTasks: 1, Ops: []Op{{Kind: "start"}, {Kind: "stop"}, {Kind: "start-hookfail", Moment: m}}}, vh.Confirmed(run))
 	}
 }
